@@ -236,7 +236,8 @@ class Scale(EnvironmentFilter):
             scale_den = max(values)-min(values)
         elif scale == "std":
             scale_num = 1
-            scale_den = stdev(values)
+            #a single value has no deviation, treat it like a constant feature (i.e., shift it and leave its scale alone)
+            scale_den = stdev(values) if len(values) > 1 else 0
         elif scale == "iqr":
             scale_num = 1
             scale_den = iqr(values)
